@@ -108,13 +108,10 @@ def Cls.copyKeepsLink : Cls → Bool
 def Op.copyFields (op : Op) : Op :=
   match op.cls with
   -- classes whose copy passes qubit_channel and duration_strategy on
-  | .wait | .vacant | .empty =>
+  | .wait | .vacant | .empty | .twovacant =>
     { cls := op.cls, qs := op.qs, chan := op.chan, dur := op.dur }
   | .single | .two =>
     { cls := op.cls, qs := op.qs, dur := op.dur }
-  -- R12: VirtualTwoQubitVacant.copy drops qubit_channel and duration_strategy
-  | .twovacant =>
-    { cls := op.cls, qs := op.qs, chan := .all, dur := Cls.defaultDur .twovacant }
   | .measure =>
     { cls := op.cls, qs := op.qs, dur := Cls.defaultDur .measure, tag := op.tag, reg := op.reg }
   | .detector | .observable | .cshift =>
